@@ -229,9 +229,18 @@ func (s *Solver) checkFlat(assertions []*Term, wantVals []*Term) (string, map[in
 	t0 := time.Now()
 	defer func() { s.Wall += time.Since(t0) }()
 	s.Queries++
-	if s.skipInc > 0 && s.kind != "cvc5" {
+	wide := false
+	for _, a := range assertions {
+		if a.wide {
+			wide = true
+			break
+		}
+	}
+	if (s.skipInc > 0 || wide) && s.kind != "cvc5" {
 		// the incremental core recently gave up on this kind of query: go straight to one-shot
-		s.skipInc--
+		if s.skipInc > 0 {
+			s.skipInc--
+		}
 		r, v := s.oneShot(assertions, wantVals, s.timeout)
 		switch r {
 		case "sat":
